@@ -149,14 +149,26 @@ def prove(hyps, goal, timeout_ms=None, use_cvc5=True, both=False):
     if is_false(simplify(goal)):
         # a concrete check failed on this path (typestate / frame obligations): refuted unless the path itself is infeasible
         s0 = Solver()
-        s0.set('timeout', 5000)
+        s0.set('timeout', timeout_ms or Z3_TIMEOUT_MS)
         for h in hyps:
             s0.add(h)
         r0 = s0.check()
         if r0 == unsat:
             return Result('unsat', 'z3-%s' % z3.get_version_string(), time.time() - t0, detail='path infeasible')
+        why = str(s0.reason_unknown()) if r0 == unknown else ''
+        if r0 == unknown and ('timeout' in why or 'cancel' in why or 'memout' in why or 'resource' in why):
+            # the solver ran out of budget (e.g. a loaded machine): do not call this a refutation
+            c = run_cvc5(_smt2(hyps, BoolVal(False))) if use_cvc5 and os.path.exists(CVC5) else 'unknown'
+            if c == 'unsat':
+                return Result('unsat', 'cvc5-1.0.3', time.time() - t0, detail='path infeasible')
+            m = finite_shape_model(hyps)
+            if m is not None:
+                return Result('sat', 'z3-%s' % z3.get_version_string(), time.time() - t0, model=m[1],
+                              detail='the obligation is false on a path that is feasible at the finite shape %s' % m[0])
+            return Result('unknown', 'z3+cvc5', time.time() - t0, detail='false goal; feasibility of the path undecided within the budget (%s)' % why)
         return Result('sat', 'z3-%s' % z3.get_version_string(), time.time() - t0,
-                      model=(s0.model() if r0 == sat else None), detail='the obligation is false on a path that was not shown infeasible')
+                      model=(s0.model() if r0 == sat else None),
+                      detail='the obligation is false on a path that the solver could not refute (%s)' % (why or 'sat'))
     s = Solver()
     s.set('timeout', timeout_ms or Z3_TIMEOUT_MS)
     for h in hyps:
@@ -179,7 +191,39 @@ def prove(hyps, goal, timeout_ms=None, use_cvc5=True, both=False):
             return Result('unsat', 'cvc5-1.0.3', time.time() - t0)
         if c == 'sat':
             return Result('sat', 'cvc5-1.0.3', time.time() - t0, detail='cvc5 sat (no model extracted)')
+    m = finite_shape_model(list(hyps) + [Not(goal)])
+    if m is not None:
+        return Result('sat', 'z3-%s' % z3.get_version_string(), time.time() - t0, model=m[1],
+                      detail='countermodel at the finite shape %s (the general query was undecided)' % m[0])
     return Result('unknown', 'z3+cvc5', time.time() - t0, detail=str(s.reason_unknown()))
+
+
+def finite_shape_model(hyps, shapes=(2, 3, 1, 4), timeout_ms=4000):
+    """countermodel search at finite scope (DESIGN 4): pin every length-like integer constant (table sizes, sequence
+    lengths) to a small value; with the shape concrete the solver answers sat with a model although the general query is
+    undecided.  Returns (shape description, model) or None."""
+    import re
+    from z3 import z3util
+    consts = {}
+    for h in hyps:
+        try:
+            for v in z3util.get_vars(h):
+                if v.sort() == I and re.search(r'(!n|!len)$', str(v)):
+                    consts[str(v)] = v
+        except Exception:
+            pass
+    if not consts:
+        return None
+    for p in shapes:
+        s = Solver()
+        s.set('timeout', timeout_ms)
+        for h in hyps:
+            s.add(h)
+        for v in consts.values():
+            s.add(v == p)
+        if s.check() == sat:
+            return ('all of %s = %d' % (sorted(consts), p), s.model())
+    return None
 
 
 def feasible(hyps, extra, timeout_ms=1500):
